@@ -441,9 +441,16 @@ def get_confirmed_edges_for_node(graph: nx.MultiDiGraph, node: DSGNode, include_
     # Update the traversed edges for this node
     _traversed[node] = confirmed_edges
 
-    # Update traversed edges for nodes part of a loop
-    for tgt_node, src_node in _traversed_to_update:
-        _traversed[tgt_node].update(_traversed[src_node])
+    # Update traversed edges for nodes part of a loop (until nothing changes: with nested loops a source can itself still
+    # be waiting for the edges of another node further down the list)
+    updated = True
+    while updated:
+        updated = False
+        for tgt_node, src_node in _traversed_to_update:
+            n_before = len(_traversed[tgt_node])
+            _traversed[tgt_node].update(_traversed[src_node])
+            if len(_traversed[tgt_node]) != n_before:
+                updated = True
 
     # Update cache only if this was the originally-requested start node
     if conf_edges_cache is not None and is_request_start:
